@@ -117,3 +117,19 @@ def solve_shift(fun, target, lo=-1e6, hi=1e6, iters=48):
 
 
 MARGIN_LEVELS = [1.0, 0.3, 1e-1, 1e-2, 1e-3, 1e-4, 1e-5]
+
+
+def st_offset(m, exact=False, big=True):
+    """Common translation applied to BOTH regions after placement (every region predicate is translation invariant):
+    small regions far from the origin."""
+    mags = [0, 0, 0, 64, -64, 1024] if exact else [0.0, 0.0, 0.0, 10.0, -10.0, 1000.0, -1000.0]
+    if not big:  # solver-decided predicates: their band grows with the coordinate magnitude, keep offsets moderate and rare
+        mags = [0.0, 0.0, 0.0, 0.0, 0.0, 10.0, -10.0]
+    return st.lists(st.sampled_from(mags), min_size=m, max_size=m)
+
+
+def shift_region(r, t):
+    t = np.asarray(t, float)
+    if "lo" in r:
+        return {"lo": (np.asarray(r["lo"], float) + t).tolist(), "hi": (np.asarray(r["hi"], float) + t).tolist()}
+    return dict(r, c=(np.asarray(r["c"], float) + t).tolist())
